@@ -160,6 +160,45 @@ static void same_address_other_key(Stats &st, const Args &a) {
     if (!bad.empty()) { st.violation("C01:" + bad + ":" + prov_name(prov), "a key object loaded where a freed one had been is confused with it", "{\"kind\":\"same-address\",\"prov\":" + std::to_string(prov) + ",\"a\":\"" + pr.a + "\",\"b\":\"" + pr.b + "\",\"alg\":\"" + jwt_alg_str(pr.alg) + "\",\"priv\":" + std::to_string(priv) + "}"); return; }
   }
 }
+// ---- "under that key": the key a checker holds is the one given with setkey, whatever a callback chose for EARLIER tokens. A long-lived
+// checker holds K0; its callback hands out KB for one token (key selection by kid) and leaves the configuration alone for the next ones
+// (or is removed): those are judged under K0 again.
+struct HistCtx { const jwk_item_t *key; int alg; };
+static int hist_cb(jwt_t *, jwt_config_t *cfg) { HistCtx *h = (HistCtx *)cfg->ctx; if (h && h->key) cfg->key = h->key; if (h && h->alg >= 0) cfg->alg = (jwt_alg_t)h->alg; return 0; }
+static std::string key_history_case(int prov, const char *an, const char *bn, jwt_alg_t alg, int variant) {
+  const KeySpec &A = POOL.get(an), &B = POOL.get(bn); bool oct = A.kind == K_OCT;
+  std::string hdr = std::string("{\"alg\":\"") + jwt_alg_str(alg) + "\"}", tokA = ref_token(A, alg, hdr, "{\"k\":\"A\"}"), tokB = ref_token(B, alg, hdr, "{\"k\":\"B\"}");
+  set_provider(prov);
+  // variant bit 1: the keys carry no alg attribute and the algorithm is given with setkey (else: attribute, setkey(NONE)); bit 2: the callback
+  // names the algorithm too; bit 4: the callback is removed afterwards (else it stays and leaves the configuration alone)
+  JwkOpts o; o.priv = oct; if (!(variant & 1)) o.alg = jwt_alg_str(alg); o.kid = "k0"; LKey k0(jwk_json(A, o)); o.kid = "kb"; LKey kb(jwk_json(B, o)); if (!k0.item || !kb.item) return "";
+  std::string bad; HistCtx hc{nullptr, -1};
+  jwt_checker_t *ch = jwt_checker_new();
+  if (!jwt_checker_setkey(ch, (variant & 1) ? alg : JWT_ALG_NONE, k0.item)) {
+    jwt_checker_setcb(ch, hist_cb, &hc);
+    hc.key = kb.item; if (variant & 2) hc.alg = alg;
+    (void)jwt_checker_verify(ch, tokB.c_str());   // the callback's key for this token (whether it is honoured is C19's matter)
+    hc.key = nullptr; hc.alg = -1; if (variant & 4) jwt_checker_setcb(ch, NULL, NULL);
+    if (jwt_checker_verify(ch, tokB.c_str()) == 0) bad = "accepts-token-of-a-key-the-callback-chose-for-an-earlier-token";
+    else if (jwt_checker_verify(ch, tokA.c_str()) != 0) bad = "rejects-token-of-the-key-it-holds-after-a-callback-chose-another-for-an-earlier-token";
+  }
+  jwt_checker_free(ch);
+  return bad;
+}
+static void key_history(Stats &st, const Args &a) {
+  struct Pair { const char *a, *b; jwt_alg_t alg; };
+  static const Pair pairs[] = {{"rsa_2048", "rsa_2048b", JWT_ALG_RS256}, {"rsa_2048", "rsa_2048b", JWT_ALG_PS384}, {"ec_p256", "ec_p256b", JWT_ALG_ES256}, {"ec_p384", "ec_p384b", JWT_ALG_ES384}, {"ec_p521", "ec_p521b", JWT_ALG_ES512},
+                               {"ec_k256", "ec_k256b", JWT_ALG_ES256K}, {"ed25519", "ed25519b", JWT_ALG_EDDSA}, {"ed448", "ed448b", JWT_ALG_EDDSA}, {"oct64", "oct64b", JWT_ALG_HS256}, {"oct64", "oct64b", JWT_ALG_HS512}};
+  int idx = 0;
+  for (size_t pi = 0; pi < sizeof(pairs) / sizeof(pairs[0]); pi++) for (int prov = 0; prov < 2; prov++) for (int variant = 0; variant < 8; variant++) {
+    const Pair &pr = pairs[pi];
+    if ((idx++ % a.nworkers) != a.worker) continue;
+    if (prov == 1 && pr.alg == JWT_ALG_ES256K) continue;
+    std::string bad = key_history_case(prov, pr.a, pr.b, pr.alg, variant);
+    st.evaluations++; st.cls("key-history(callback-chose-another-key-for-an-earlier-token)"); st.nontrivial(mix(fnv("hist"), mix(pi, prov * 8 + variant)));
+    if (!bad.empty()) { st.violation("C01:" + bad + ":" + prov_name(prov), "a reused checker judges a token under a key other than the one it holds", "{\"kind\":\"key-history\",\"prov\":" + std::to_string(prov) + ",\"pair\":" + std::to_string(pi) + ",\"variant\":" + std::to_string(variant) + ",\"a\":\"" + pr.a + "\",\"b\":\"" + pr.b + "\",\"alg\":\"" + jwt_alg_str(pr.alg) + "\"}"); return; }
+  }
+}
 static void ecdsa_specials(Stats &st, const Args &a) {
   std::vector<std::pair<size_t, int>> ec; for (size_t ki = 0; ki < KEYS.size(); ki++) for (int ai = 0; ai < NALGS; ai++) if (KEYS[ki]->kind == K_EC && strength_ok(*KEYS[ki], ALGS[ai].alg)) ec.push_back({ki, ai});
   for (size_t ci = 0; ci < ec.size(); ci++) {
@@ -204,6 +243,9 @@ int main(int argc, char **argv) {
 
   if (!a.replay.empty()) {
     J j = J::parse(read_file(a.replay)); if (!j) return 2;
+    if (json_object_get(j.p, "kind") && !strcmp(json_string_value(json_object_get(j.p, "kind")), "key-history")) {
+      const char *an = json_string_value(json_object_get(j.p, "a")), *bn = json_string_value(json_object_get(j.p, "b")); jwt_alg_t alg = jwt_str_alg(json_string_value(json_object_get(j.p, "alg")));
+      return key_history_case((int)json_integer_value(json_object_get(j.p, "prov")), an, bn, alg, (int)json_integer_value(json_object_get(j.p, "variant"))).empty() ? 0 : 3; }
     if (json_object_get(j.p, "kind") && !strcmp(json_string_value(json_object_get(j.p, "kind")), "same-address")) { Args a1 = a; a1.worker = 0; a1.nworkers = 1; same_address_other_key(st, a1); return st.violations.empty() ? 0 : 3; }
     if (json_object_get(j.p, "kind")) { OddCase o{(int)json_integer_value(json_object_get(j.p, "prov")), json_string_value(json_object_get(j.p, "jwk")), json_string_value(json_object_get(j.p, "alg")), from_latin1_utf8(json_string_value(json_object_get(j.p, "token"))), ""};
       return run_odd(o, 0) == 1 || run_odd(o, 1) == 1 ? 3 : 0; }
@@ -223,6 +265,8 @@ int main(int argc, char **argv) {
   ecdsa_specials(st, a);
   if (!st.violations.empty()) return finish();
   same_address_other_key(st, a);
+  if (!st.violations.empty()) return finish();
+  key_history(st, a);
   if (!st.violations.empty()) return finish();
   uint64_t n = a.thorough() ? 150000 : 2500;
   if (a.kv.count("cases")) n = strtoull(a.kv["cases"].c_str(), 0, 10);
